@@ -748,8 +748,14 @@ class AddressControlConstructionToken(CompositeBaseToken):
     _TOKEN_SETS = [
         [AddressKeywordToken, BracketStartToken, ExpressionToken, SeparatorToken,
          ExpressionToken, BracketFinishToken],
+        # ADDRESS(row, column, [abs_num], [a1], [sheet_text]): at most five arguments
         [AddressKeywordToken, BracketStartToken, ExpressionToken, SeparatorToken,
-         ExpressionToken, SeparatorToken, IterableExpressionToken, BracketFinishToken]
+         ExpressionToken, SeparatorToken, ExpressionToken, BracketFinishToken],
+        [AddressKeywordToken, BracketStartToken, ExpressionToken, SeparatorToken,
+         ExpressionToken, SeparatorToken, ExpressionToken, SeparatorToken, ExpressionToken, BracketFinishToken],
+        [AddressKeywordToken, BracketStartToken, ExpressionToken, SeparatorToken,
+         ExpressionToken, SeparatorToken, ExpressionToken, SeparatorToken, ExpressionToken, SeparatorToken,
+         ExpressionToken, BracketFinishToken]
     ]
 
     @property
@@ -762,7 +768,7 @@ class AddressControlConstructionToken(CompositeBaseToken):
 
     @property
     def expressions(self):
-        return self.value[6].expressions if len(self.value) > 6 else []
+        return [self.value[index] for index in range(6, len(self.value) - 1, 2)]
 
 
 class CountControlConstructionToken(CompositeBaseToken):
